@@ -1,3 +1,4 @@
+import PGT.Proofs.ToOneof
 import PGT.Proofs.FromFlat
 import PGT.Proofs.FromOneof
 /-
@@ -266,5 +267,83 @@ theorem C07_to_message_branch (f : Field) (obj : GoVal) (a : TfVal) (hk : f.info
   | map _ _ _ _ => simp at hr
   | nilv => simp at hr
   | foreign _ => simp at hr
+
+-- ------------------------------------------------------------------------------------------------------
+-- the CopyTo side for whole messages at every depth (proofs: `Proofs/ToOneof.lean`). `BranchIR f`: the branch is a scalar
+-- with a zero value in the type table (or a pointer scalar) or a pointer message – exactly the branches whose null-ness
+-- depends on the struct at all (`C07_branchIR_exact`); `GroupSep`: branches of one group have different wrapper types;
+-- `Below`: the nested (field list, struct, attributes) triples reached through non-null object values.
+section
+open PGT.ToOneof
+
+/-- **C07 (CopyTo), whole message, every depth.** For every message (any fields around the groups), every typed struct
+(`ToOKs`): CopyTo into the empty typed object succeeds without diagnostics and returns attributes `as` such that at the
+message itself and at every nested message level below it (`Below`) the oneof groups are exclusive
+(`GroupsExclusive`: 1. holder nil ⇒ all branch attributes null; 2. active branch non-null with the payload's rendering,
+all other branches null; 3. at most one non-null branch attribute per group; the executable predicate
+`Spec.c07ToGroup`). -/
+theorem C07_to_exclusive_every_depth (m : Msg) (obj : GoVal) (atys : List (String × TfTy)) (h : ToOKs m.fields obj atys) :
+    ∃ r as, copyTo m obj (.obj false false none (some atys)) = .ok r ∧ r.diags = [] ∧
+      r.tf = .obj false false (some as) (some atys) ∧
+      ∀ fs' obj' as', Below m.fields obj as fs' obj' as' → GroupsExclusive fs' obj' as' := by
+  intros; apply PGT.ToOneof.C07_to_total <;> assumption
+
+/-- **1.** the holder of `g` is nil ⇒ after CopyTo every branch attribute of `g` is null -/
+theorem C07_to_unset_all_null (m : Msg) (obj : GoVal) (atys : List (String × TfTy)) (h : ToOKs m.fields obj atys)
+    (g : String) (hnil : obj.field? g = none ∨ obj.field? g = some (.iface none))
+    (r : ToResult) (hr : copyTo m obj (.obj false false none (some atys)) = .ok r) :
+    ∃ as, r.tf = .obj false false (some as) (some atys) ∧
+      ∀ f ∈ m.fields, f.info.oneOfName = g → BranchIR f → ∃ a, as.lookup f.info.nameSnake = some a ∧ isNull a = true := by
+  intros; apply PGT.ToOneof.C07_to_unset <;> assumption
+
+/-- **2.** the holder holds the wrapper of branch `f0` with a non-zero payload ⇒ the attribute of `f0` is non-null and
+carries the payload's rendering, and the attribute of every other branch of the group (different wrapper type) is null -/
+theorem C07_to_active_only (m : Msg) (obj : GoVal) (atys : List (String × TfTy)) (h : ToOKs m.fields obj atys)
+    (f0 : Field) (hf0 : f0 ∈ m.fields) (hb0 : BranchIR f0) (p : GoVal)
+    (hh : obj.field? f0.info.oneOfName = some (.iface (some (lastSegment f0.info.oneOfType, f0.info.name, p))))
+    (hact : payloadActive f0.info p = true)
+    (r : ToResult) (hr : copyTo m obj (.obj false false none (some atys)) = .ok r) :
+    ∃ as, r.tf = .obj false false (some as) (some atys) ∧
+      (∃ a, as.lookup f0.info.nameSnake = some a ∧ isNull a = false ∧ Carries f0 p a) ∧
+      ∀ f ∈ m.fields, f.info.oneOfName = f0.info.oneOfName → BranchIR f →
+        lastSegment f.info.oneOfType ≠ lastSegment f0.info.oneOfType →
+        ∃ a, as.lookup f.info.nameSnake = some a ∧ isNull a = true := by
+  intros; apply PGT.ToOneof.C07_to_active <;> assumption
+
+/-- **3.** at most one branch attribute per group is non-null, and it is the active branch -/
+theorem C07_to_at_most_one (m : Msg) (obj : GoVal) (atys : List (String × TfTy)) (h : ToOKs m.fields obj atys)
+    (hsep : GroupSep m.fields)
+    (r : ToResult) (hr : copyTo m obj (.obj false false none (some atys)) = .ok r) :
+    ∃ as, r.tf = .obj false false (some as) (some atys) ∧
+      (∀ f1 ∈ m.fields, ∀ f2 ∈ m.fields, BranchIR f1 → BranchIR f2 → f2.info.oneOfName = f1.info.oneOfName →
+        ∀ a1 a2, as.lookup f1.info.nameSnake = some a1 → as.lookup f2.info.nameSnake = some a2 →
+          isNull a1 = false → isNull a2 = false → f1 = f2) ∧
+      (∀ f ∈ m.fields, BranchIR f → ∀ a, as.lookup f.info.nameSnake = some a → isNull a = false →
+        obj.field? f.info.oneOfName =
+            some (.iface (some (lastSegment f.info.oneOfType, f.info.name, getVal f.info obj))) ∧
+          payloadActive f.info (getVal f.info obj) = true ∧ Carries f (getVal f.info obj) a) := by
+  intros; apply PGT.ToOneof.C07_to_at_most_one <;> assumption
+
+/-- the executable predicate `Spec.c07ToCheck` (all groups of the message) holds on the result of CopyTo -/
+theorem C07_to_check (m : Msg) (obj : GoVal) (atys : List (String × TfTy)) (h : ToOKs m.fields obj atys)
+    (hb : ∀ f ∈ m.fields, f.info.oneOfName ≠ "" → BranchIR f ∧ HolderWF f.info obj)
+    (r : ToResult) (hr : copyTo m obj (.obj false false none (some atys)) = .ok r) :
+    c07ToCheck m obj r.tf = true := by
+  intros; apply PGT.ToOneof.C07_to_check <;> assumption
+
+/-- **`BranchIR` is exact**: for a scalar or message branch that is not a child of an embedded message and does not
+satisfy `BranchIR`, the null-ness of the attribute is a constant – it says nothing about the holder. -/
+theorem C07_branchIR_exact (f : Field) (he : f.info.parentIsOptionalEmbed = false) (ho : f.info.oneOfName ≠ "")
+    (hk : f.info.kind = .primitive ∨ f.info.kind = .object) (hnb : ¬ BranchIR f) :
+    (∀ obj a, rendersVal f obj a = true → isNull a = false) ∨ (∀ obj a, rendersVal f obj a = true → isNull a = true) := by
+  intros; apply PGT.ToOneof.branchIR_necessary <;> assumption
+
+/-- the group is unset, yet the duration attribute is non-null (a zero duration): `c07ToCheck` is false, although the
+object renders the struct (C03 / C20 hold) -/
+theorem C07_no_zero_value_witness :
+    cxRun (.struct [("Choice", .iface none)]) = some ([("d", false), ("s", true)], true, false) := by
+  intros; apply PGT.ToOneof.counter_unset_nonnull <;> assumption
+
+end
 
 end PGT.Props.C07
